@@ -135,6 +135,27 @@ def run(chk, build, replay=None):
             gens = [ast.comprehension(target=gen_compose.S("i"), iter=core_tree(rng, 3), ifs=[core_tree(rng, 2) for _ in range(rng.randint(0, 2))],
                                       is_async=0) for _ in range(rng.randint(1, 2))]
             add("core trees", ast.GeneratorExp(elt=core_tree(rng, rng.randint(1, 4)), generators=gens))
+        # what the converter emits (the property names these trees explicitly): whole outputs under the four AST-level
+        # configurations, for the feature scripts and the header placements
+        import symtable
+        from harness import features, gen_place, lowercorr
+        import oneliner  # noqa
+        conv = sys.modules["oneliner.convert"].convert
+        scripts = list(features.PROGRAMS.values()) + [p for _, p in gen_place.function_placements()[::3] + gen_place.class_placements()[::3]]
+        n_out = n_core = 0
+        for src in scripts:
+            for chain, short in ((False, False), (True, False), (False, True), (True, True)):
+                try:
+                    out = conv(ast.parse(src), symtable.symtable(src, "<s>", "exec"), lowercorr.make_configs(chain, short))
+                except Exception:
+                    continue
+                add("converter outputs (whole one-liners)", out)
+                n_out += 1
+                try:
+                    n_core += coretok.core_top_py(out)
+                except RecursionError:
+                    pass
+        chk.coverage["converter_outputs"] = {"trees": n_out, "inside_the_proved_core": n_core}
         for fn, e in corpus.stdlib_expressions(None if big else 60, seed=chk.seed + 3):
             add("standard library expressions", e)
     chk.coverage["input_distribution"] = dist
